@@ -63,11 +63,14 @@ def check(pid, tier, seed, replay=None):
             stats = {"states": sum(r.distinct for r, _ in res), "transitions": sum(r.generated for r, _ in res),
                      "configs": [[r.distinct, r.generated] for r, _ in res]}
             scripts = [s for _, ss in res for s in ss]
+            # the model's Sync schedules once more with the destination reached through nested SyncWriter wrappers (the extra lock
+            # steps are not in the schedule: the player finishes them round-robin)
+            scripts += [dict(s, id=s["id"] + "-w%d" % (1 + i % 2), wrap=1 + i % 2) for i, s in enumerate(scripts) if s["sync"] and i % 3 == 0]
             rng = random.Random(seed)
             for i in range(1500 if thorough else 300):
                 G = rng.randint(2, 5)
                 scripts.append({"id": "free-%d" % i, "shapes": [[rng.choice(["flat", "dict", "arr", "carr", "obj", "big", "flat", "ctxobj", "ctxarr", "fobj"]) for _ in range(rng.randint(1, 4))] for _ in range(G)],
-                                "steps": [], "free": True, "seed": rng.randrange(1 << 30), "sync": i % 3 == 0})
+                                "steps": [], "free": True, "seed": rng.randrange(1 << 30), "sync": i % 3 == 0, "wrap": (i // 3) % 3})
             log("%s: model checked, %d scripts %.0fs" % (pid, len(scripts), time.time() - t0))
         recs = run_player(player, sc, "lconc", [json.dumps(s) for s in scripts], shards=NCPU, out_name="conc.ndjson")
         bads = validate_sharded(sc.dir, "LogConcTrace", "conc.ndjson", [rr for _, rr in recs], NCPU, FAMILY)
